@@ -241,6 +241,15 @@ vbi_pfc_demux_feed		(vbi_pfc_demux *	dx,
 		if (pgno < 0)
 			goto desynced;
 
+		if (0 == ((pgno ^ dx->block.pgno) & 0xF00)
+		    && dx->n_packets > 0
+		    && dx->packet <= dx->n_packets) {
+			/* A header of our magazine terminates our
+			   page but its last packet(s) are missing.
+			   Discard the current block. */
+			vbi_pfc_demux_reset (dx);
+		}
+
 		if (pgno != dx->block.pgno) {
 			/* Another page of our magazine terminates
 			   our page. Headers of other magazines are
